@@ -168,6 +168,52 @@ def any (t : PT) (dim : Nat) (keepdim : Bool) : Option PT :=
     -- an element backed by nothing is the disjunction of defaults: false if the dimension is empty
     some { physical := physical, paxes := paxes, vaxes := vaxes, default := Bn.boolExt (truthy t.default && ed.numel > 0) }
 
+/-! ### `stack` -/
+
+/-- `default == t.default or (isnan(default) and isnan(t.default))` -/
+def sameDefault (a b : Ext) : Bool :=
+  match a, b with
+  | .nan, .nan => true
+  | _, _ => Ext.eqIEEE a b
+
+/-- the slice of the stacked physical tensor that operand `t` fills: unify the generalised axes `lggs` with `t.vaxes`
+(fresh substitution), view the slice over the fresh axes `ks` through `t`'s physical axes as looked up in the
+substitution (`project(p, (e.lookup(subst) for e in t.paxes), ks, subst)`), copy `t.physical` into it; the rest of the
+slice keeps the default.  `none` = the AssertionError raised when the unification fails or a looked-up axis is not a
+physical axis. -/
+def stackSlice (fuel : Nat) (lggs : List Axis) (ks : List (Nat × Nat)) (t : PT) (next : Nat) : Option (List Ext) :=
+  match unifyAll fuel (lggs.zip t.vaxes) ⟨[], next⟩ with
+  | (false, _) => none
+  | (true, st) =>
+    let looked := t.paxes.map (fun k => lookup st.subst FUEL (Axis.phys k.1 k.2))
+    if !(looked.all (fun e => match e with | .phys _ _ => true | _ => false)) then none
+    else
+      let paxes' : List (Nat × Nat) := looked.map (fun e => match e with | .phys v n => (v, n) | _ => (0, 0))
+      some (PT.mk t.physical paxes' (ks.map (fun g => clone st.subst FUEL (Axis.phys g.1 g.2))) t.default).dense
+
+/-- `stack(tensors, dim)` (non-negative `dim`); `none` = AssertionError -/
+def stack (fuel : Nat) (ts : List PT) (dim : Nat) (next : Nat) : Option PT :=
+  match ts with
+  | [] => none
+  | [h] => some { h with vaxes := h.vaxes.take dim ++ [unitAxis] ++ h.vaxes.drop dim }
+  | h :: tail =>
+    if tail.any (fun t => t.vshape != h.vshape || !sameDefault h.default t.default) then none
+    else
+      -- anti-unify all input vaxes, left to right, with a fresh anti-substitution for every further operand
+      let (lggs, st) := tail.foldl (fun (acc : List Axis × ASt) (t : PT) =>
+        antiunifyAll fuel (acc.1.zip t.vaxes) ⟨[], acc.2.next⟩) (h.vaxes, ⟨[], next⟩)
+      let n := ts.length
+      let k : Nat × Nat := (st.next, n)
+      let ks := st.pairs.map (·.2)
+      let slices := ts.map (fun t => stackSlice fuel lggs ks t (st.next + 1))
+      if slices.any Option.isNone then none
+      else
+        some (Bn.normalize
+          { physical := (slices.map (fun s => s.getD [])).flatten,
+            paxes := k :: ks,
+            vaxes := lggs.take dim ++ [Axis.phys k.1 k.2] ++ lggs.drop dim,
+            default := h.default })
+
 /-! ### protocol -/
 
 def showOptPT : Option PT → String
@@ -196,6 +242,9 @@ def handle : List String → Option (Except String String)
   | "C06.expand" :: rest => some do
       let (t, s, next) ← Tok.run (do let t ← parsePT; let v ← Tok.list Tok.nat; let n ← Tok.nat; pure (t, v, n)) rest
       pure (showOptPT (expand t s next))
+  | "C06.stack" :: rest => some do
+      let (ts, d, next) ← Tok.run (do let t ← Tok.list parsePT; let d ← Tok.nat; let n ← Tok.nat; pure (t, d, n)) rest
+      pure (showOptPT (stack FUEL ts d next))
   | "C06.any" :: rest => some do
       let (t, d, k) ← Tok.run (do let t ← parsePT; let d ← Tok.nat; let k ← Tok.bool; pure (t, d, k)) rest
       pure (showOptPT (any t d k))
